@@ -555,7 +555,7 @@ func runC03(a *Args) error {
 	// ---------- family 2: random scenarios on the scripted store ----------
 	names := []string{"a", "b", "c", "d", "e.1", "f-2_"}
 	genRandom := func() *c03Case {
-		c := &c03Case{Family: "random", Chain: Pick(rng, envNames), Format: Pick(rng, formats), SA: rng.Bool(), TS: Pick(rng, []int{0, 0, 1, 1, 1, 2})}
+		c := &c03Case{Family: "random", Chain: Pick(rng, envNames), Format: Pick(rng, formats), SA: rng.Bool(), TS: Pick(rng, []int{0, 1, 1, 1, 1, 2})}
 		e := envs[c.Chain]
 		req := "ca"
 		others := []string{"signingAuthority", "tsa"}
@@ -674,7 +674,7 @@ func runC03(a *Args) error {
 			ensure(req + ":" + s.Name)
 			c.Labels = append(c.Labels, "twin-listed")
 		}
-		if rng.Chance(1, 3) {
+		if rng.Chance(1, 2) {
 			n := Pick(rng, names)
 			s := get("tsa", n)
 			if rng.Chance(2, 3) {
